@@ -1,7 +1,44 @@
 //! Helpers shared by the oracles.
 
+use crate::case::{OptSpec, Sep, Split};
+use crate::scan;
 use proptest::prelude::*;
 use std::borrow::Cow;
+
+/// Root cause shared by the open known findings (KF-C05-1, KF-C13-1,
+/// KF-C14-1): the library measures and cuts text fragment by fragment, so an
+/// escape sequence that contains a fragment boundary — an ASCII space under
+/// the ASCII separator, a hyphen split point under the hyphen splitter — is
+/// cut in two and its tail is measured as visible text.
+///
+/// `ascii_spaces`: does some well-formed sequence of the clean text `par`
+/// contain a word boundary of the ASCII separator (a space followed by a
+/// non-space) strictly inside it?
+pub fn ascii_boundary_inside_sequence(par: &str) -> bool {
+    let sc = scan::scan(par);
+    let b = par.as_bytes();
+    sc.spans.iter().any(|sp| {
+        (sp.start + 1..sp.end).any(|i| i < b.len() && b[i - 1] == b' ' && b[i] != b' ')
+    })
+}
+
+/// Does the hyphen splitter have a split point strictly inside a well-formed
+/// sequence of the clean text `par`? (Split points by C12's definition.)
+pub fn hyphen_point_inside_sequence(par: &str) -> bool {
+    let sc = scan::scan(par);
+    if sc.spans.is_empty() {
+        return false;
+    }
+    super::c12::hyphen_points(par)
+        .into_iter()
+        .any(|p| sc.strictly_inside(p))
+}
+
+/// Signature used by C05 and C13 (clean texts).
+pub fn fragment_boundary_inside_sequence(par: &str, spec: &OptSpec) -> bool {
+    (spec.sep == Sep::Ascii && ascii_boundary_inside_sequence(par))
+        || (spec.split == Split::Hyphen && hyphen_point_inside_sequence(par))
+}
 
 /// Reference implementation of the line notion of `str::lines()`: split at
 /// `'\n'`, drop one `'\r'` directly before that `'\n'`, no final empty
